@@ -352,9 +352,10 @@ func (t *Translator) initializeToolBlock(id, name string, toolIndex int, state *
 		"type":  "content_block_start",
 		"index": state.currentIndex,
 		"content_block": map[string]interface{}{
-			"type": contentTypeToolUse,
-			"id":   id,
-			"name": name,
+			"type":  contentTypeToolUse,
+			"id":    id,
+			"name":  name,
+			"input": map[string]interface{}{},
 		},
 	}); err != nil {
 		return err
